@@ -410,7 +410,7 @@ func Run(c *vf.Check) {
 	jobs = append(jobs, randomJobs(c)...)
 	vf.Parallel(len(jobs), func(i int) { jobs[i]() })
 	c.Finish("engine S: blake2xb, blake2xs, keccak: every sequence of depth <= 3 (thorough 4) over {Write(c) while absorbing, Read(n), XORKeyStream(n), Reseed, Clone (exploration continues on both copies), Reset (factory-made objects)} with sizes {0,1,64,65,128,129,137,600} and seed lengths {0,1,32,33,64,65,129,300}, plus every seed length 0..300 at depth 1 (and: changing any one byte of the seed or of the absorbed data - first, last, around the block boundaries - changes the output), plus every sequence of depth <= 2 started from 6 non-initial states reached by fixed prefixes of 8-27 steps (partially consumed blocks, repeated reseeds, a diverged clone, reset after reseed); every output and a final 70-byte probe of every live object is compared with the single-shot reference (fresh New(seed), absorb, one Read); Reseed = fresh XOF keyed by the next 128 output bytes; Reset = the seeded initial state. "+
-		"random.Bits: every bit length 0..1030 x exact x 4 streams; random.Int: every modulus 1..1024 and {2^(b-1), 2^b-1, 2^(b-1)+1, r} for b=1..521 under 5 streams incl. all-0xff and modulus-valued prefixes, recording stream for determinism; exhaustive first-draw enumeration (all 2^8/2^16 byte strings) for 14 moduli <= 65535: accepted outputs exactly uniform. randstream: all reader sets of size 1..3 over {good, short, failing}: deterministic, depends on every reader's bytes, works iff one reader delivers. "+
+		"random.Bits: every bit length 0..1030 x exact x 4 streams; random.Int: every modulus 1..1024 and {2^(b-1), 2^b-1, 2^(b-1)+1, r} for b=1..521 under 5 streams incl. all-0xff and modulus-valued prefixes, recording stream for determinism; exhaustive first-draw enumeration (all 2^8/2^16 byte strings) for 14 moduli <= 65535: accepted outputs exactly uniform. randstream: all reader sets of size 1..3 over {good, short, failing, half-at-a-time, one-byte-at-a-time, data-with-EOF} (the output equals the one for the same bytes delivered whole), one stream over three calls with a pool reader that is empty in between and refilled: deterministic, depends on every reader's bytes, works iff one reader delivers. "+
 		"non-trivial = sequences of length >= 2; moduli that are not powers of two",
 		[]string{"the XOF reference is the same implementation used single-shot (the property is about chunking, cloning, reseeding and reset, not about matching a standard)"}, nil)
 }
